@@ -128,6 +128,102 @@ def _histories(tier, wd):
     return stats
 
 
+def conc_scenarios(tier):
+    """Thread programs at the yield points of insert / remove / compact_buckets (validated step by step
+    against BTreeConc.tla), plus gate-probing scenarios (compaction started while a mutation is parked inside its
+    call, and vice versa; checked on the final state only)."""
+    I = lambda i, k: {"op": "insert", "id": i, "k": k}
+    R = lambda i, k: {"op": "remove", "id": i, "k": k}
+    C = {"op": "compact"}
+    fill = [I(1, 1), I(1, 2), I(2, 1), I(3, 1)]                # bucket 0 close to its 64-byte limit
+    spread = [I(1, k) for k in range(1, 6)]                    # three buckets
+    cap2, cap3 = (400, 150) if tier == "quick" else (6000, 3000)
+    dup = [
+        ("rm-ins-same-key", [I(1, 1), I(1, 2)], [[R(1, 1)], [I(2, 1)]], cap2),
+        ("ins-ins-new-key", [I(1, 2)], [[I(1, 1)], [I(2, 1)]], cap2),
+        ("ins-rm-same-pair", [I(1, 1)], [[I(1, 1)], [R(1, 1)]], cap2),
+        ("rm-rm-last-two", [I(1, 1), I(2, 1)], [[R(1, 1)], [R(2, 1)]], cap2),
+        ("rm-then-ins-vs-ins", [I(1, 1)], [[R(1, 1), I(1, 1)], [I(2, 1)]], cap2),
+        ("migrate-vs-remove", fill, [[I(4, 1)], [R(1, 1)]], cap2),
+        ("migrate-vs-migrate", fill, [[I(4, 1)], [I(4, 2)]], cap2),
+        ("migrate-vs-rm-all", [I(1, 1), I(1, 2), I(1, 3)], [[I(2, 3), I(3, 3)], [R(1, 3)]], cap2),
+        ("compact-vs-insert", spread, [[C], [I(2, 3)]], cap2),
+        ("compact-vs-remove", spread, [[C], [R(1, 3)], [I(2, 6)]], cap3),
+        ("three-on-one-key", [I(1, 1)], [[R(1, 1)], [I(2, 1)], [I(3, 1)]], cap3),
+        ("three-mixed", fill, [[R(2, 1)], [I(4, 1)], [R(1, 2), I(1, 2)]], cap3),
+    ]
+    uniq = [
+        ("uniq-two-claim", [I(1, 2)], [[I(1, 1)], [I(2, 1)]], cap2),
+        ("uniq-three-claim", [I(1, 2)], [[I(1, 1)], [I(2, 1)], [I(3, 1)]], cap3),
+        ("uniq-release-claim", [I(1, 1)], [[R(1, 1)], [I(2, 1)], [I(1, 1)]], cap3),
+    ]
+    probe = [
+        ("probe-compact-insert", spread, [[C], [I(2, 3)], [I(2, 6)]], cap3),
+        ("probe-compact-remove", spread, [[C], [R(1, 3)], [I(2, 1)]], cap3),
+        ("probe-compact-migrate", fill + [I(1, 3), I(1, 4)], [[C], [I(4, 1)], [R(1, 2)]], cap3),
+    ]
+    mk = lambda lst, u, gate: [{"name": n, "nk": 6, "uniq": u, "respect_gate": gate, "setup": su, "threads": th,
+                                "cap": cap, "random": len(th) >= 3, "seed": vlib.seed() + i}
+                               for i, (n, su, th, cap) in enumerate(lst)]
+    return {"dup": mk(dup, False, True), "uniq": mk(uniq, True, True), "probe": mk(probe, False, False)}
+
+
+def _conc(tier, wd, groups=None, cfgs=None):
+    out = {"schedules": 0, "events": 0, "states": 0, "failures": [], "blocked": 0, "mc_states": 0, "mc_generated": 0,
+           "mc_violated": []}
+    if cfgs is None:
+        cfgs = ["MC_BTreeConc_quick.cfg", "MC_BTreeConc_uniq.cfg"] if tier == "quick" else \
+               ["MC_BTreeConc_quick.cfg", "MC_BTreeConc_uniq.cfg", "MC_BTreeConc_thorough.cfg",
+                "MC_BTreeConc_three.cfg"]
+    for cfg in cfgs:
+        mc = vlib.run_tlc("MC_BTreeConc", cfg, wd, workers=12, timeout=3000, heap="16g", out_name="mcc.out",
+                          allow_violation=True)
+        vlib.log(f"[C10] X {cfg}: {mc['states']} states, violated={mc['violated']}")
+        out["mc_states"] += mc["states"]
+        out["mc_generated"] += mc["generated"]
+        if mc["violated"]:
+            with open(mc["out"], errors="replace") as f:
+                out["mc_violated"].append({"cfg": cfg, "tail": f.read()[-4000:]})
+        elif mc["rc"] != 0:
+            raise vlib.ToolError("TLC failed on " + cfg)
+    for group, scs in conc_scenarios(tier).items():
+        if groups is not None and group not in groups:
+            continue
+        sf = os.path.join(wd, f"conc-{group}.jsonl")
+        tf = os.path.join(wd, f"conc-{group}.ndjson")
+        with open(sf, "w") as f:
+            for sc in scs:
+                f.write(json.dumps(sc) + "\n")
+        rc, text = vlib.run_bin("drive_btree", ["conc", sf, tf], timeout=2400)
+        if rc != 0:
+            print(text[-3000:])
+            out["failures"].append({"tag": group, "reason": "drive_btree conc aborted (panic / deadlock)",
+                                    "line_in_trace": 0, "event": {"tail": text[-1500:]}, "trace": scs, "header": None})
+            continue
+        summ = json.loads(text.strip().splitlines()[-1])
+        out["schedules"] += summ["schedules"]
+        out["events"] += summ["events"]
+        out["blocked"] += summ["blocked"]
+        for mm in summ["final_mismatch"]:
+            out["failures"].append({"tag": f"{group}:{mm['scenario']}", "reason": "after the threads finished, flush + "
+                                    "cold load does not return the in-memory content", "line_in_trace": 0,
+                                    "event": mm, "trace": [], "header": None})
+        if summ["deadlocks"]:
+            out["failures"].append({"tag": group, "reason": f"{summ['deadlocks']} schedules deadlocked",
+                                    "line_in_trace": 0, "event": {}, "trace": [], "header": None})
+        if group != "probe":
+            with open(tf) as f:
+                header = json.loads(f.readline())
+            res = cc.validate_file(tf, wd, f"btc-{group}", cfg="BTreeConcTrace.cfg", module="BTreeConcTrace")
+            out["states"] += res["states"]
+            for fl in res["failures"]:
+                fl["header"] = header
+                fl["spec"] = "BTreeConcTrace"
+                out["failures"].append(fl)
+        os.remove(tf)
+    return out
+
+
 REPLAY_RE = re.compile(r'^<<"REPLAY", "(.*)">>$')
 
 
@@ -179,10 +275,21 @@ def run(tier):
                               "line_in_trace": fl["line_in_trace"], "event": fl["event"], "header": fl["header"],
                               "trace": fl["trace"]})
         n_viol += 1
+    c = _conc(tier, wd)
+    vlib.log(f"[C10] T threads: {c['schedules']} schedules, {c['events']} events, {c['states']} states, "
+             f"blocked={c['blocked']}, failures={len(c['failures'])}")
+    for mv in c["mc_violated"]:
+        vlib.violation(PROP, {"property": PROP, "kind": "model", **mv})
+        n_viol += 1
+    for fl in c["failures"][:8]:
+        vlib.violation(PROP, {"property": PROP, "kind": "trace", "spec": fl.get("spec", "none"), "tag": fl["tag"],
+                              "reason": fl["reason"], "line_in_trace": fl["line_in_trace"], "event": fl["event"],
+                              "header": fl["header"], "trace": fl["trace"]})
+        n_viol += 1
     cov = {
-        "states": mc["states"] + h["states"] + q["tlc_states"],
+        "states": mc["states"] + h["states"] + q["tlc_states"] + c["mc_states"] + c["states"],
         "transitions": mc["generated"],
-        "traces_validated_against_impl": h["histories"],
+        "traces_validated_against_impl": h["histories"] + c["schedules"],
         "evaluations": q["checks"] + h["events"],
         "distinct_nontrivial": q["cases"] + h["histories"],
         "rule": "X: Manifest.tla (insert/remove/migrate/compact, flush as snapshot ; write* ; commit ; publish ; "
@@ -196,12 +303,19 @@ def run(tier):
                 "dirty flags, listed keys, manifest, version) must be the ordered-multimap step and satisfy "
                 "MutationOK; every flush callback must be the next protocol step with exactly the snapshot's decoded "
                 "content; a cold load after EVERY durable write and after every crash must equal Loaded, which "
-                "LoadIsCommitted pins to the last committed snapshot",
+                "LoadIsCommitted pins to the last committed snapshot. X threads: BTreeConc.tla, all programs of 2-3 "
+                "threads x all interleavings at the yield points (OwnerLists, BtreeMatches, DirtyCovers, FlushExact, "
+                "UniqueHolds). T threads: real OS threads parked at every instrumented yield point; all schedules "
+                "(DFS, capped; random for 3 threads) of the scenario list; every step must be the specification's "
+                "action for the lock scope just left and the observed layout must equal the next specification state; "
+                "then flush + cold load must return Content. Gate probes: compaction started while mutations are "
+                "parked mid-call (blocked threads detected by timeout), final state only",
         "samples": [{"query_case": q["sample"]}, {"first_events": h.get("sample")}],
         "exhaustive": True,
         "model_checking": {"cfg": f"MC_Manifest_{tier}.cfg", "states": mc["states"], "transitions": mc["generated"]},
         "query_cases": q["cases"], "query_checks": q["checks"],
         "histories": h["histories"], "trace_events": h["events"],
+        "thread_schedules": c["schedules"], "thread_events": c["events"], "thread_model_states": c["mc_states"],
     }
     vlib.write_evidence(PROP, tier, "model_checking", cov, time.time() - t0, n_viol, assumptions=[
         "flushes are not concurrent with mutations or compaction (the crate's documented contract)",
@@ -217,12 +331,13 @@ def replay(payload):
         print(json.dumps(payload)[:2000])
         return 1
     wd = vlib.workdir("c10-replay")
+    spec = "BTreeConcTrace" if payload.get("spec") == "BTreeConcTrace" else "BTreeTrace"
     p = os.path.join(wd, "t.ndjson")
     with open(p, "w") as f:
         f.write(json.dumps(payload["header"], separators=(",", ":")) + "\n")
         for ev in payload["trace"]:
             f.write(json.dumps(ev, separators=(",", ":")) + "\n")
-    res = cc.validate_file(p, wd, "replay", cfg="BTreeTrace.cfg", module="BTreeTrace", max_failures=0)
+    res = cc.validate_file(p, wd, "replay", cfg=spec + ".cfg", module=spec, max_failures=0)
     for fl in res["failures"]:
         print("REJECTED:", fl["reason"], "at line", fl["line_in_trace"], json.dumps(fl["event"])[:300])
     return 1 if res["failures"] else 0
